@@ -43,6 +43,9 @@ Proof.
   - apply IH; auto. intros x Hx. apply H. auto.
 Qed.
 
+Lemma existsb_ext_eq (t : N) l : existsb (fun t0 => dkey_eqb (KTx t0) (KTx t)) l = existsb (N.eqb t) l.
+Proof. induction l as [|a l IH]; [reflexivity|]. cbn [existsb]. rewrite IH. cbn [dkey_eqb]. rewrite (N.eqb_sym a t). reflexivity. Qed.
+
 Section Reorg.
 Variable apply : sroot -> block -> option sroot.
 Variable f7_fixed : bool.
@@ -185,5 +188,454 @@ Proof.
 Qed.
 
 End Gather.
+
+(** ** rollforward *)
+Lemma rollforward_frame L : forall n n2 ok, rollforward apply n L = (n2, ok) ->
+  best n2 = best n /\ orphans n2 = orphans n /\ bad n2 = bad n /\ lib n2 = lib n /\
+  (forall k, (forall r, k <> KStateMarker r) -> (forall i m, k <> KReceipts i m) -> dur n2 k = dur n k) /\
+  (forall r, has_state_marker (dur n) r = true -> has_state_marker (dur n2) r = true) /\
+  (forall i m, has_receipts (dur n) i m = true -> has_receipts (dur n2) i m = true) /\
+  (ok = true -> valid_chain (sdb_root n) L /\ sdb_root n2 = end_root (sdb_root n) L /\
+     forall c, In c L -> has_state_marker (dur n2) (root c) = true /\
+                         (txs c <> [] -> has_receipts (dur n2) (hash_field c) (no c) = true)).
+Proof.
+  induction L as [|b L IH]; intros n n2 ok H; simpl in H.
+  - inversion H; subst. repeat split; auto; contradiction.
+  - destruct (execute_block apply n b) as [n1|] eqn:Ex.
+    + destruct (execute_block_frame _ _ _ _ Ex) as (Hok & Fb & Fs & Fo & Fbad & Flib & Ff & Fm & Fr).
+      destruct (IH _ _ _ H) as (Hb & Ho & Hbad & Hlib & Hf & Hm & Hr & Hok').
+      split; [congruence|]. split; [congruence|]. split; [congruence|]. split; [congruence|].
+      split; [|split; [|split]].
+      * intros k H1 H2. rewrite Hf, Ff; auto.
+      * intros r Hr0. apply Hm. rewrite Fm, Hr0. apply orb_true_r.
+      * intros i m Hr0. apply Hr. rewrite Fr, Hr0. apply orb_true_r.
+      * intros Eok. destruct (Hok' Eok) as (Hv & Hs & Hc). rewrite Fs in Hv, Hs.
+        unfold exec_ok in Hok. destruct (apply (sdb_root n) b) as [r'|] eqn:Eap; [|discriminate].
+        apply N.eqb_eq in Hok. subst r'.
+        simpl. split; [split; auto|]. split; auto.
+        intros c [<-|Hin]; auto. split.
+        -- apply Hm. rewrite Fm, N.eqb_refl. reflexivity.
+        -- intros Ht. apply Hr. rewrite Fr. destruct (txs b); [contradiction|]. rewrite !N.eqb_refl. reflexivity.
+    + inversion H; subst. repeat split; auto; intros; discriminate.
+Qed.
+
+(** ** swapChain *)
+Lemma fold_emit_ne_dur (f : block -> wunit) L : forall n,
+  let n' := fold_left (fun n b => emit_ne n (f b)) L n in
+  dur n' = fold_left (fun d b => apply_unit d (f b)) L (dur n) /\
+  best n' = best n /\ sdb_root n' = sdb_root n /\ orphans n' = orphans n /\ bad n' = bad n /\ lib n' = lib n.
+Proof.
+  induction L as [|b L IH]; intros n; simpl; auto 10.
+  destruct (IH (emit_ne n (f b))) as (H1 & H2 & H3 & H4 & H5 & H6).
+  destruct (emit_ne_fields n (f b)) as (F1 & F2 & F3 & F4 & F5 & F6).
+  rewrite H1, H2, H3, H4, H5, H6, emit_ne_dur. auto 10.
+Qed.
+Lemma fold_tell_fields L : forall n,
+  let n' := fold_left (fun n t => tell n (EvMemPoolPut t)) L n in
+  dur n' = dur n /\ best n' = best n /\ sdb_root n' = sdb_root n /\ orphans n' = orphans n /\ bad n' = bad n /\ lib n' = lib n.
+Proof. induction L as [|t L IH]; intros n; simpl; auto 10. apply (IH (tell n (EvMemPoolPut t))). Qed.
+
+Lemma txmaps_other L : forall d k, (forall t, k <> KTx t) ->
+  fold_left (fun d b => apply_unit d (txmap_unit b)) L d k = d k.
+Proof.
+  induction L as [|b L IH]; intros d k H; simpl; auto.
+  rewrite IH by auto. unfold apply_unit, txmap_unit. simpl u_ops. rewrite apply_ops_lookup.
+  rewrite lookup_tx_ops_other by auto. reflexivity.
+Qed.
+Lemma txmaps_notin L : forall d t, ~ In t (concat (map txs L)) ->
+  fold_left (fun d b => apply_unit d (txmap_unit b)) L d (KTx t) = d (KTx t).
+Proof.
+  induction L as [|b L IH]; intros d t H; simpl in *; auto.
+  rewrite IH by (intro; apply H; apply in_or_app; auto).
+  unfold apply_unit, txmap_unit. simpl u_ops. rewrite apply_ops_lookup.
+  rewrite lookup_tx_ops_notin; auto. intro; apply H; apply in_or_app; auto.
+Qed.
+Lemma nodup_app_l (l1 l2 : list N) : NoDup (l1 ++ l2) -> NoDup l1 /\ NoDup l2 /\ forall x, In x l1 -> ~ In x l2.
+Proof.
+  induction l1 as [|a l1 IH]; simpl; intros H.
+  - repeat split; auto. constructor.
+  - inversion H; subst. destruct (IH H3) as (H4 & H5 & H6). repeat split; auto.
+    + constructor; auto. intro; apply H2; apply in_or_app; auto.
+    + intros x [<-|Hx]; auto. intro; apply H2; apply in_or_app; auto.
+Qed.
+Lemma txmaps_in L : forall d j c i t, NoDup (concat (map txs L)) ->
+  nth_error L j = Some c -> nth_error (txs c) i = Some t ->
+  fold_left (fun d b => apply_unit d (txmap_unit b)) L d (KTx t) = Some (VTxIdx (hash_field c) i).
+Proof.
+  induction L as [|b L IH]; intros d j c i t Hnd Hj Hi; [destruct j; discriminate|].
+  simpl in Hnd. destruct (nodup_app_l _ _ Hnd) as (Hb & Hl & Hdis).
+  destruct j; simpl in *.
+  - inversion Hj; subst. rewrite txmaps_notin by (apply Hdis; eapply nth_error_In; eauto).
+    unfold apply_unit, txmap_unit. simpl u_ops. rewrite apply_ops_lookup.
+    rewrite (lookup_tx_ops_in _ _ 0%nat i t Hb Hi). reflexivity.
+  - eapply IH; eauto.
+Qed.
+
+Lemma heights_lookup L : forall p k, linked p L ->
+  lookup_ops (map (fun b => (KHeight (no b), Some (VHash (hash_field b)))) L) (KHeight k) =
+  match find (fun c => no c =? k) L with Some c => Some (Some (VHash (hash_field c))) | None => None end.
+Proof.
+  induction L as [|c L IH]; intros p k H; simpl; auto.
+  destruct H as (H1 & H2 & H3). rewrite (IH _ k H3).
+  destruct (find (fun c0 => no c0 =? k) L) as [c'|] eqn:Ef.
+  - apply find_some in Ef. destruct Ef as (Hin & E). apply N.eqb_eq in E.
+    pose proof (linked_no_gt _ _ _ H3 Hin). destruct (no c =? k) eqn:E2; auto. apply N.eqb_eq in E2. lia.
+  - destruct (no c =? k); reflexivity.
+Qed.
+Lemma heights_lookup_other L k : (forall n, k <> KHeight n) ->
+  lookup_ops (map (fun b => (KHeight (no b), Some (VHash (hash_field b)))) L) k = None.
+Proof.
+  intros H. apply lookup_ops_none. intros o Ho. apply in_map_iff in Ho. destruct Ho as (b & <- & _).
+  simpl. intro E. eapply H; eauto.
+Qed.
+
+Lemma del_receipts_lookup olds k :
+  lookup_ops (map (fun b => (KReceipts (hash_field b) (no b), None)) olds) k =
+  if existsb (fun b => dkey_eqb (KReceipts (hash_field b) (no b)) k) olds then Some None else None.
+Proof.
+  induction olds as [|b l IH]; [reflexivity|]. cbn [map lookup_ops existsb fst snd]. rewrite IH.
+  destruct (existsb (fun b0 => dkey_eqb (KReceipts (hash_field b0) (no b0)) k) l);
+    destruct (dkey_eqb (KReceipts (hash_field b) (no b)) k); reflexivity.
+Qed.
+Lemma txdel_lookup ts k :
+  lookup_ops (map (fun t => (KTx t, None)) ts) k =
+  if existsb (fun t => dkey_eqb (KTx t) k) ts then Some None else None.
+Proof.
+  induction ts as [|b l IH]; [reflexivity|]. cbn [map lookup_ops existsb fst snd]. rewrite IH.
+  destruct (existsb (fun t => dkey_eqb (KTx t) k) l); destruct (dkey_eqb (KTx b) k); reflexivity.
+Qed.
+
+Lemma existsb_false_all {A} (f : A -> bool) l : (forall x, In x l -> f x = false) -> existsb f l = false.
+Proof. induction l as [|a l IH]; simpl; intros H; auto. rewrite H, IH; auto. Qed.
+
+(** reads of the store after swapChain, by key class, relative to the store before it *)
+Lemma swap_chain_reads n m top news olds st :
+  linked st (rev news) ->
+  let n' := swap_chain n m top news olds false in
+  let L := rev news in
+  let ret := old_only_txs olds news in
+  best n' = top /\ sdb_root n' = sdb_root n /\ orphans n' = orphans n /\ bad n' = bad n /\ lib n' = lib n /\
+  dur n' KMarker = None /\
+  dur n' KLatest = Some (VNo (no top)) /\
+  (forall k, dur n' (KHeight k) = match find (fun c => no c =? k) L with
+                                  | Some c => Some (VHash (hash_field c))
+                                  | None => dur n (KHeight k) end) /\
+  (forall id, dur n' (KBlock id) = dur n (KBlock id)) /\
+  (forall r, dur n' (KStateMarker r) = dur n (KStateMarker r)) /\
+  (forall i k, dur n' (KReceipts i k) =
+     if existsb (fun b => dkey_eqb (KReceipts (hash_field b) (no b)) (KReceipts i k)) olds then None
+     else dur n (KReceipts i k)) /\
+  (forall t, dur n' (KTx t) =
+     if mem t ret then None
+     else fold_left (fun d b => apply_unit d (txmap_unit b)) L
+            (apply_unit (apply_unit (dur n) (marker_write_unit m)) (del_receipts_unit olds)) (KTx t)).
+Proof.
+  intros Hl n' L ret. subst n'. unfold swap_chain. fold L. fold ret.
+  set (n1 := emit n (marker_write_unit m)).
+  set (n2 := emit_ne n1 (del_receipts_unit olds)).
+  set (n3 := fold_left (fun n b => emit_ne n (txmap_unit b)) L n2).
+  set (n4 := emit_ne n3 (txdel_unit ret)).
+  set (n5 := fold_left (fun n t => tell n (EvMemPoolPut t)) ret n4).
+  destruct (emit_ne_fields n1 (del_receipts_unit olds)) as (A1 & A2 & A3 & A4 & A5 & _).
+  destruct (fold_emit_ne_dur txmap_unit L n2) as (B0 & B1 & B2 & B3 & B4 & B5).
+  destruct (emit_ne_fields n3 (txdel_unit ret)) as (C1 & C2 & C3 & C4 & C5 & _).
+  destruct (fold_tell_fields ret n4) as (D0 & D1 & D2 & D3 & D4 & D5).
+  fold n2 in A1, A2, A3, A4, A5. fold n3 in B0, B1, B2, B3, B4, B5. fold n4 in C1, C2, C3, C4, C5.
+  fold n5 in D0, D1, D2, D3, D4, D5.
+  assert (E2 : dur n2 = apply_unit (apply_unit (dur n) (marker_write_unit m)) (del_receipts_unit olds)).
+  { unfold n2. rewrite emit_ne_dur. reflexivity. }
+  assert (E4 : dur n5 = apply_unit (fold_left (fun d b => apply_unit d (txmap_unit b)) L (dur n2)) (txdel_unit ret)).
+  { rewrite D0. unfold n4. rewrite emit_ne_dur, B0. reflexivity. }
+  simpl best. simpl sdb_root. simpl orphans. simpl bad. simpl lib. simpl dur.
+  split; [reflexivity|]. split; [rewrite D2, C2, B2, A2; reflexivity|].
+  split; [rewrite D3, C3, B3, A3; reflexivity|]. split; [rewrite D4, C4, B4, A4; reflexivity|].
+  split; [rewrite D5, C5, B5, A5; reflexivity|].
+  rewrite E4, E2.
+  assert (HU : forall k, apply_unit (apply_unit (apply_unit
+                 (fold_left (fun d b => apply_unit d (txmap_unit b)) L
+                    (apply_unit (apply_unit (dur n) (marker_write_unit m)) (del_receipts_unit olds)))
+                 (txdel_unit ret)) (heights_unit L top)) marker_delete_unit k =
+          if dkey_eqb KMarker k then None else
+          match lookup_ops (u_ops (heights_unit L top)) k with Some v => v | None =>
+          match lookup_ops (u_ops (txdel_unit ret)) k with Some v => v | None =>
+            fold_left (fun d b => apply_unit d (txmap_unit b)) L
+                    (apply_unit (apply_unit (dur n) (marker_write_unit m)) (del_receipts_unit olds)) k end end).
+  { intros k. unfold apply_unit at 1. rewrite apply_ops_lookup. cbn [marker_delete_unit u_ops lookup_ops fst snd].
+    destruct (dkey_eqb KMarker k); auto.
+    unfold apply_unit at 1. rewrite apply_ops_lookup.
+    destruct (lookup_ops (u_ops (heights_unit L top)) k); auto.
+    unfold apply_unit at 1. rewrite apply_ops_lookup. reflexivity. }
+  assert (HB : forall k, (forall t, k <> KTx t) ->
+            fold_left (fun d b => apply_unit d (txmap_unit b)) L
+                    (apply_unit (apply_unit (dur n) (marker_write_unit m)) (del_receipts_unit olds)) k =
+            match lookup_ops (u_ops (del_receipts_unit olds)) k with Some v => v | None =>
+              if dkey_eqb KMarker k then Some (VMarker m) else dur n k end).
+  { intros k Hk. rewrite txmaps_other by auto. unfold apply_unit at 1. rewrite apply_ops_lookup.
+    destruct (lookup_ops (u_ops (del_receipts_unit olds)) k); auto. }
+  assert (HH : forall k, lookup_ops (u_ops (heights_unit L top)) k =
+            match k with
+            | KLatest => Some (Some (VNo (no top)))
+            | KHeight h => match find (fun c => no c =? h) L with Some c => Some (Some (VHash (hash_field c))) | None => None end
+            | _ => None end).
+  { intros k. unfold heights_unit. cbn [u_ops]. rewrite lookup_ops_app. cbn [lookup_ops fst snd].
+    destruct k as [|h| | | | |]; cbn [dkey_eqb]; auto; try (apply heights_lookup_other; intros; discriminate).
+    apply (heights_lookup L st h Hl). }
+  assert (HD : forall k, (forall t, k <> KTx t) -> lookup_ops (u_ops (txdel_unit ret)) k = None).
+  { intros k Hk. unfold txdel_unit. cbn [u_ops]. rewrite txdel_lookup.
+    rewrite existsb_false_all; auto. intros t _. apply dkey_eqb_neq. intro E. eapply Hk; eauto. }
+  assert (HR : forall k, (forall i j, k <> KReceipts i j) -> lookup_ops (u_ops (del_receipts_unit olds)) k = None).
+  { intros k Hk. unfold del_receipts_unit. cbn [u_ops]. rewrite del_receipts_lookup.
+    rewrite existsb_false_all; auto. intros t _. apply dkey_eqb_neq. intro E. eapply Hk; eauto. }
+  repeat split; intros; rewrite HU; cbn [dkey_eqb]; auto.
+  - rewrite HH. reflexivity.
+  - rewrite HH. destruct (find (fun c => no c =? k) L); auto.
+    rewrite HD by (intros; discriminate). rewrite HB by (intros; discriminate).
+    rewrite HR by (intros; discriminate). reflexivity.
+  - rewrite HH, HD by (intros; discriminate). rewrite HB by (intros; discriminate).
+    rewrite HR by (intros; discriminate). reflexivity.
+  - rewrite HH, HD by (intros; discriminate). rewrite HB by (intros; discriminate).
+    rewrite HR by (intros; discriminate). reflexivity.
+  - rewrite HH, HD by (intros; discriminate). rewrite HB by (intros; discriminate).
+    unfold del_receipts_unit. cbn [u_ops]. rewrite del_receipts_lookup.
+    destruct (existsb _ olds); reflexivity.
+  - rewrite HH. unfold txdel_unit at 1. cbn [u_ops]. rewrite txdel_lookup.
+    assert (Em : existsb (fun t0 => dkey_eqb (KTx t0) (KTx t)) ret = mem t ret).
+    { unfold mem. apply existsb_ext_eq. }
+    rewrite Em. destruct (mem t ret); reflexivity.
+Qed.
+
+Lemma valid_chain_prefix L : forall r j c, valid_chain r L -> nth_error L j = Some c ->
+  valid_chain r (firstn (S j) L) /\ end_root r (firstn (S j) L) = root c.
+Proof.
+  induction L as [|b L IH]; intros r j c H Hn; [destruct j; discriminate|].
+  destruct H as (H1 & H2). destruct j; simpl in Hn.
+  - inversion Hn; subst. simpl. destruct L; simpl; auto.
+  - destruct (IH _ _ _ H2 Hn) as (H3 & H4). simpl firstn. simpl. auto.
+Qed.
+Lemma valid_chain_step L : forall r i a b, valid_chain r L -> nth_error L i = Some a -> nth_error L (S i) = Some b ->
+  apply (root a) b = Some (root b).
+Proof.
+  induction L as [|x L IH]; intros r i a b H Ha Hb; [destruct i; discriminate|].
+  destruct H as (H1 & H2). destruct i; simpl in *.
+  - inversion Ha; subst. destruct L; [discriminate|]. inversion Hb; subst. apply H2.
+  - eapply IH; eauto.
+Qed.
+Lemma in_concat_firstn (L : list block) j t : In t (concat (map txs (firstn j L))) -> In t (concat (map txs L)).
+Proof.
+  revert j. induction L as [|b L IH]; intros j H; destruct j; simpl in *; auto; try contradiction.
+  apply in_app_or in H. apply in_or_app. destruct H; eauto.
+Qed.
+Lemma in_concat_nth (L : list block) i c t : nth_error L i = Some c -> In t (txs c) -> forall j, (i < j)%nat ->
+  In t (concat (map txs (firstn j L))).
+Proof.
+  revert i. induction L as [|b L IH]; intros i Hn Hin j Hj; [destruct i; discriminate|].
+  destruct j; [lia|]. simpl. apply in_or_app. destruct i; simpl in Hn.
+  - inversion Hn; subst. auto.
+  - right. eapply IH; eauto. lia.
+Qed.
+
+(** spent along an executable chain *)
+Lemma chain_spent_from_root L r j c t : valid_chain r L -> nth_error L j = Some c -> spent r t = true ->
+  spent (root c) t = true.
+Proof.
+  intros H Hn Hs. destruct (valid_chain_prefix _ _ _ _ H Hn) as (H1 & H2).
+  rewrite <- H2, (valid_chain_spent _ _ t H1), Hs. reflexivity.
+Qed.
+Lemma chain_spent_from_member L r i j ci cj t : valid_chain r L -> nth_error L i = Some ci -> nth_error L j = Some cj ->
+  (i <= j)%nat -> In t (txs ci) -> spent (root cj) t = true.
+Proof.
+  intros H Hi Hj Hle Hin. destruct (valid_chain_prefix _ _ _ _ H Hj) as (H1 & H2).
+  rewrite <- H2, (valid_chain_spent _ _ t H1).
+  assert (In t (concat (map txs (firstn (S j) L)))) by (apply (in_concat_nth L i ci t Hi Hin (S j)); lia).
+  apply mem_In in H0. rewrite H0. apply orb_true_r.
+Qed.
+
+Lemma find_linked p L i c : linked p L -> nth_error L i = Some c -> find (fun c' => no c' =? no c) L = Some c.
+Proof.
+  intros Hl Hn. destruct (find (fun c' => no c' =? no c) L) as [c'|] eqn:Ef.
+  - apply find_some in Ef. destruct Ef as (Hin & E). apply N.eqb_eq in E.
+    destruct (In_nth_error _ _ Hin) as (j & Hj).
+    assert (j = i) by (eapply linked_no_inj; eauto). subst j. congruence.
+  - exfalso. apply nth_error_In in Hn. pose proof (find_none _ _ Ef _ Hn) as E. simpl in E.
+    rewrite N.eqb_refl in E. discriminate.
+Qed.
+
+Lemma swap_inv n0 n2 m top news olds st :
+  Inv n0 ->
+  best n2 = best n0 -> orphans n2 = orphans n0 ->
+  (forall k, (forall r, k <> KStateMarker r) -> (forall i j, k <> KReceipts i j) -> dur n2 k = dur n0 k) ->
+  (forall r, has_state_marker (dur n0) r = true -> has_state_marker (dur n2) r = true) ->
+  (forall i j, has_receipts (dur n0) i j = true -> has_receipts (dur n2) i j = true) ->
+  valid_chain (root st) (rev news) -> sdb_root n2 = end_root (root st) (rev news) ->
+  (forall c, In c (rev news) -> has_state_marker (dur n2) (root c) = true /\
+                               (txs c <> [] -> has_receipts (dur n2) (hash_field c) (no c) = true)) ->
+  mainb (dur n0) (no st) = Some st -> no st < no (best n0) -> news <> [] -> hd st news = top ->
+  linked st (rev news) -> (forall c, In c news -> get_block (dur n0) (hash_field c) = Some c) ->
+  (forall c mm, In c news -> no c <= no (best n0) -> mainb (dur n0) (no c) = Some mm -> hash_field c <> hash_field mm) ->
+  (forall x, In x olds <-> exists k, no st < k /\ k <= no (best n0) /\ mainb (dur n0) k = Some x) ->
+  no (best n0) < no top ->
+  Inv (swap_chain n2 m top news olds false).
+Proof.
+  intros I Hb Ho Hf Hsm Hrc Hv Hsdb Hnew Hst Hstlt Hne Hhd Hl Hstored Hdiff Holds Htop.
+  destruct (swap_chain_reads n2 m top news olds st Hl)
+    as (Rb & Rs & Ro & Rbad & Rlib & RM & RL & RH & RB & RS & RR & RT).
+  set (nF := swap_chain n2 m top news olds false) in *.
+  set (L := rev news) in *.
+  set (dF := dur nF) in *.
+  (* top is the last block of L *)
+  assert (Ftop : exists it, nth_error L it = Some top /\ length L = S it).
+  { destruct news as [|c news']; [contradiction|]. simpl in Hhd. subst c.
+    exists (length (rev news')). unfold L. simpl. split.
+    - rewrite nth_error_app2 by lia. rewrite Nat.sub_diag. reflexivity.
+    - rewrite app_length. simpl. lia. }
+  destruct Ftop as (it & Hit & Hlen).
+  assert (Fno : forall i c, nth_error L i = Some c -> no c = no st + 1 + N.of_nat i) by (intros; eapply linked_nth; eauto).
+  assert (Ftopno : no top = no st + 1 + N.of_nat it) by (apply Fno; auto).
+  assert (Fidx : forall i c, nth_error L i = Some c -> (i <= it)%nat).
+  { intros i c Hi. assert (i < length L)%nat by (apply nth_error_Some; congruence). lia. }
+  assert (FinL : forall c, In c L <-> In c news) by (intros; unfold L; rewrite <- in_rev; tauto).
+  assert (GBF : forall id, get_block dF id = get_block (dur n0) id).
+  { intros id. apply get_block_ext. rewrite RB. apply Hf; intros; discriminate. }
+  assert (HHF : forall k, get_hash_by_no dF k = match find (fun c => no c =? k) L with
+                                                | Some c => Some (hash_field c) | None => get_hash_by_no (dur n0) k end).
+  { intros k. unfold get_hash_by_no. rewrite RH. destruct (find (fun c => no c =? k) L); auto.
+    rewrite Hf by (intros; discriminate). reflexivity. }
+  assert (Mnew : forall i c, nth_error L i = Some c -> mainb dF (no c) = Some c).
+  { intros i c Hi. unfold mainb, get_block_by_no. rewrite HHF, (find_linked _ _ _ _ Hl Hi).
+    rewrite GBF. apply Hstored. apply FinL. eapply nth_error_In; eauto. }
+  assert (Fnone : forall k, (forall c, In c L -> no c <> k) -> find (fun c => no c =? k) L = None).
+  { intros k H. destruct (find (fun c => no c =? k) L) as [c|] eqn:E; auto.
+    apply find_some in E. destruct E as (Hin & E). apply N.eqb_eq in E. exfalso. eapply H; eauto. }
+  assert (Mold : forall k, k <= no st -> mainb dF k = mainb (dur n0) k).
+  { intros k Hk. unfold mainb, get_block_by_no. rewrite HHF, Fnone.
+    - destruct (get_hash_by_no (dur n0) k); auto.
+    - intros c Hc. pose proof (linked_no_gt _ _ _ Hl Hc). lia. }
+  assert (Mchar : forall k x, k <= no top -> mainb dF k = Some x ->
+            (k <= no st /\ mainb (dur n0) k = Some x) \/ (exists i, nth_error L i = Some x /\ no x = k)).
+  { intros k x Hk Hx. destruct (N.le_gt_cases k (no st)) as [Hle|Hgt].
+    - left. split; auto. rewrite <- Mold; auto.
+    - right. set (i := N.to_nat (k - no st - 1)).
+      assert (Hi : (i < length L)%nat) by (unfold i; lia).
+      destruct (nth_error L i) as [c|] eqn:Ec; [|apply nth_error_None in Ec; lia].
+      assert (no c = k) by (rewrite (Fno _ _ Ec); unfold i; lia).
+      exists i. rewrite <- H in Hx. rewrite (Mnew _ _ Ec) in Hx. inversion Hx; subst. auto. }
+  assert (Istd : forall k x, mainb (dur n0) k = Some x -> get_block (dur n0) (hash_field x) = Some x).
+  { intros k x Hx. unfold mainb, get_block_by_no in Hx. destruct (get_hash_by_no (dur n0) k); [|discriminate].
+    destruct (get_block_univ _ _ _ _ _ _ _ I Hx) as (_ & <- & _). exact Hx. }
+  destruct (valid_chain_fresh _ _ Hv) as (Hnd & Hfresh).
+  assert (Spre : forall k x t, k <= no st -> mainb (dur n0) k = Some x -> In t (txs x) -> spent (root st) t = true).
+  { intros k x t Hk Hx Hin. eapply (i_spent _ _ _ _ _ I k (no st)); eauto; lia. }
+  assert (Pre_notnew : forall k x t, k <= no st -> mainb (dur n0) k = Some x -> In t (txs x) -> ~ In t (concat (map txs L))).
+  { intros k x t Hk Hx Hin Hc. specialize (Hfresh t Hc). rewrite (Spre _ _ _ Hk Hx Hin) in Hfresh. discriminate. }
+  assert (Pre_notold : forall k x t, k <= no st -> mainb (dur n0) k = Some x -> In t (txs x) ->
+            forall o, In o olds -> ~ In t (txs o)).
+  { intros k x t Hk Hx Hin o Hoo Hto. apply Holds in Hoo. destruct Hoo as (ko & H1 & H2 & H3).
+    destruct (i_path _ _ _ _ _ I (ko - 1)) as (p & b & P1 & P2 & P3 & P4); [lia|].
+    replace (ko - 1 + 1) with ko in P2 by lia. rewrite H3 in P2. inversion P2; subst b.
+    destruct (apply_fresh _ _ _ P4) as (_ & Hf').
+    assert (spent (root p) t = true) by (eapply (i_spent _ _ _ _ _ I k (ko - 1)); eauto; lia).
+    rewrite (Hf' t Hto) in H. discriminate. }
+  assert (Newtx : forall i c j t, nth_error L i = Some c -> nth_error (txs c) j = Some t ->
+            dF (KTx t) = Some (VTxIdx (hash_field c) j)).
+  { intros i c j t Hi Hj. rewrite RT.
+    assert (Hin : In t (concat (map txs L))).
+    { apply in_concat. exists (txs c). split; [apply in_map; eapply nth_error_In; eauto|eapply nth_error_In; eauto]. }
+    assert (Em : mem t (old_only_txs olds news) = false).
+    { apply mem_false. unfold old_only_txs. intro H. apply filter_In in H. destruct H as (_ & H).
+      unfold new_txs in H. apply negb_true_iff in H. apply mem_false in H. apply H.
+      apply in_concat in Hin. destruct Hin as (l & Hl1 & Hl2). apply in_map_iff in Hl1. destruct Hl1 as (b & <- & Hb').
+      apply in_concat. exists (txs b). split; auto. apply in_map. apply FinL. auto. }
+    rewrite Em. fold L. eapply txmaps_in; eauto. }
+  assert (Oldtx : forall t, ~ In t (concat (map txs L)) -> (forall o, In o olds -> ~ In t (txs o)) ->
+            dF (KTx t) = (dur n0) (KTx t)).
+  { intros t H1 H2. rewrite RT.
+    assert (Em : mem t (old_only_txs olds news) = false).
+    { apply mem_false. unfold old_only_txs. intro H. apply filter_In in H. destruct H as (H & _).
+      apply (proj1 (dedup_In _ _)) in H. apply in_concat in H. destruct H as (l & Hl1 & Hl2).
+      apply in_map_iff in Hl1. destruct Hl1 as (o & <- & Hoo'). eapply H2; eauto. }
+    rewrite Em. fold L. rewrite txmaps_notin by auto.
+    unfold apply_unit. rewrite !apply_ops_lookup. cbn [del_receipts_unit u_ops].
+    rewrite del_receipts_lookup, existsb_false_all by (intros; reflexivity).
+    cbn [marker_write_unit u_ops lookup_ops fst snd dkey_eqb]. apply Hf; intros; discriminate. }
+  constructor; fold dF; rewrite ?Rb.
+  - unfold get_latest. rewrite RL. reflexivity.
+  - apply (Mnew _ _ Hit).
+  - destruct (i_gen _ _ _ _ _ I) as (G0 & G1). split; auto. rewrite Mold by lia. exact G0.
+  - intros k x Hk Hx. destruct (Mchar _ _ Hk Hx) as [(Hle & Hx')|(i & Hi & Hn)]; auto.
+    apply (i_no _ _ _ _ _ I k x); auto. lia.
+  - intros k Hk. destruct (N.lt_ge_cases k (no st)) as [Hlt|Hge].
+    + destruct (i_path _ _ _ _ _ I k) as (p & b & P1 & P2 & P3 & P4); [lia|].
+      exists p, b. rewrite !Mold by lia. auto.
+    + set (i := N.to_nat (k - no st)).
+      assert (Hi : (i < length L)%nat) by (unfold i; lia).
+      destruct (nth_error L i) as [b|] eqn:Eb; [|apply nth_error_None in Eb; lia].
+      assert (Hnb : no b = k + 1) by (rewrite (Fno _ _ Eb); unfold i; lia).
+      destruct i as [|i'] eqn:Ei.
+      * assert (k = no st) by (unfold i in Ei; lia). subst k.
+        exists st, b. rewrite Mold by lia. rewrite <- Hnb, (Mnew _ _ Eb). repeat split; auto.
+        -- eapply linked_first; eauto.
+        -- destruct L as [|x L']; [discriminate|]. simpl in Eb. inversion Eb; subst. apply Hv.
+      * assert (Hi' : (i' < length L)%nat) by lia.
+        destruct (nth_error L i') as [a|] eqn:Ea; [|apply nth_error_None in Ea; lia].
+        assert (Hna : no a = k) by (rewrite (Fno _ _ Ea); unfold i in Ei; lia).
+        exists a, b. rewrite <- Hna at 1. rewrite (Mnew _ _ Ea). rewrite <- Hnb, (Mnew _ _ Eb). repeat split; auto.
+        -- eapply linked_succ; eauto.
+        -- eapply valid_chain_step; eauto.
+  - intros k Hk. rewrite RH, Fnone.
+    + rewrite Hf by (intros; discriminate). apply (i_above _ _ _ _ _ I). lia.
+    + intros c Hc. destruct (In_nth_error _ _ Hc) as (i & Hi). pose proof (Fidx _ _ Hi). rewrite (Fno _ _ Hi). lia.
+  - rewrite Rs, Hsdb. destruct (valid_chain_prefix _ _ _ _ Hv Hit) as (_ & E).
+    rewrite <- E. f_equal. rewrite <- Hlen. symmetry. apply firstn_all.
+  - intros k x Hk Hx. unfold has_state_marker. rewrite RS. fold (has_state_marker (dur n2) (root x)).
+    destruct (Mchar _ _ Hk Hx) as [(Hle & Hx')|(i & Hi & Hn)].
+    + apply Hsm. eapply (i_state _ _ _ _ _ I); eauto. lia.
+    + apply Hnew. eapply nth_error_In; eauto.
+  - intros k x Hk Hx Htx. unfold has_receipts. rewrite RR.
+    assert (Hex : existsb (fun b => dkey_eqb (KReceipts (hash_field b) (no b)) (KReceipts (hash_field x) (no x))) olds = false).
+    { apply existsb_false_all. intros o Hoo. apply dkey_eqb_neq. intro E. inversion E as [[E1 E2]].
+      pose proof Hoo as Ho'. apply Holds in Ho'. destruct Ho' as (ko & K1 & K2 & K3).
+      pose proof (i_no _ _ _ _ _ I _ _ K2 K3) as Hko.
+      destruct (Mchar _ _ Hk Hx) as [(Hle & Hx')|(i & Hi & Hn)].
+      - pose proof (i_no _ _ _ _ _ I k x ltac:(lia) Hx'). lia.
+      - apply (Hdiff x o); auto.
+        + apply FinL. eapply nth_error_In; eauto.
+        + lia.
+        + rewrite <- E2, Hko. exact K3. }
+    rewrite Hex. fold (has_receipts (dur n2) (hash_field x) (no x)).
+    destruct (Mchar _ _ Hk Hx) as [(Hle & Hx')|(i & Hi & Hn)].
+    + apply Hrc. eapply (i_rcpt _ _ _ _ _ I); eauto. lia.
+    + apply Hnew; auto. eapply nth_error_In; eauto.
+  - intros k x i t Hk Hx Hn.
+    destruct (Mchar _ _ Hk Hx) as [(Hle & Hx')|(j & Hj & Hnj)].
+    + rewrite Oldtx.
+      * eapply (i_tx _ _ _ _ _ I); eauto. lia.
+      * eapply Pre_notnew; eauto. eapply nth_error_In; eauto.
+      * eapply Pre_notold; eauto. eapply nth_error_In; eauto.
+    + eapply Newtx; eauto.
+  - intros t id i Ht. rewrite RT in Ht.
+    destruct (mem t (old_only_txs olds news)); [discriminate|]. fold L in Ht.
+    destruct (in_dec N.eq_dec t (concat (map txs L))) as [Hin|Hnin].
+    + apply in_concat in Hin. destruct Hin as (l & Hl1 & Hl2). apply in_map_iff in Hl1. destruct Hl1 as (c & <- & Hc).
+      destruct (In_nth_error _ _ Hc) as (j & Hj). destruct (In_nth_error _ _ Hl2) as (i' & Hi').
+      rewrite (txmaps_in _ _ _ _ _ _ Hnd Hj Hi') in Ht. inversion Ht; subst.
+      exists c. split; auto. rewrite GBF. apply Hstored. apply FinL. auto.
+    + rewrite txmaps_notin in Ht by auto.
+      unfold apply_unit in Ht. rewrite !apply_ops_lookup in Ht. cbn [del_receipts_unit u_ops] in Ht.
+      rewrite del_receipts_lookup, existsb_false_all in Ht by (intros; reflexivity).
+      cbn [marker_write_unit u_ops lookup_ops fst snd dkey_eqb] in Ht. rewrite Hf in Ht by (intros; discriminate).
+      destruct (i_txsound _ _ _ _ _ I _ _ _ Ht) as (b & B1 & B2). exists b. split; auto. rewrite GBF. exact B1.
+  - intros j k bj bk t Hjk Hk Hmj Hmk Hin.
+    destruct (Mchar _ _ Hk Hmk) as [(Hle & Hk')|(ik & Hik & Hnk)].
+    + destruct (Mchar j bj ltac:(lia) Hmj) as [(Hlej & Hj')|(ij & Hij & Hnj)].
+      * eapply (i_spent _ _ _ _ _ I j k); eauto. lia.
+      * pose proof (Fno _ _ Hij). lia.
+    + destruct (Mchar j bj ltac:(lia) Hmj) as [(Hlej & Hj')|(ij & Hij & Hnj)].
+      * eapply chain_spent_from_root; eauto.
+      * eapply (chain_spent_from_member L (root st) ij ik); eauto.
+        pose proof (Fno _ _ Hij). pose proof (Fno _ _ Hik). lia.
+  - exact RM.
+  - intros id x. rewrite RB, Hf by (intros; discriminate). apply (i_univ _ _ _ _ _ I).
+  - rewrite Ro, Ho. apply (i_orph _ _ _ _ _ I).
+Qed.
 
 End Reorg.
